@@ -4,29 +4,30 @@ package main
 // calls by contract, inlining, havoc.
 
 import (
-	"go/constant"
-	"sort"
-	"os"
 	"fmt"
 	"go/ast"
+	"go/constant"
 	"go/token"
 	"go/types"
 	"math/big"
+	"os"
+	"regexp"
+	"sort"
 	"strings"
 )
 
 var ghostBuiltins = map[string]bool{
 	"requires": true, "domain": true, "ensures": true, "ensuresGoal": true, "ensuresTrusted": true, "assert": true, "assume": true, "imp": true, "iff": true, "old": true,
 	"forall": true, "exists": true, "forallIn": true, "existsIn": true, "forallStr": true, "modifiesTail": true, "modifiesElems": true, "modifiesPtr": true, "modifiesAll": true, "modifiesMap": true,
-	"freshSlice": true, "sameBase": true, "sameArray": true, "suffixOf": true, "viewOf": true, "offsetIn": true, "disjointFromTail": true, "bytesEq": true, "strBytesEq": true, "allocated": true, "sameOrDisjoint": true, "unchangedElems": true, "identical": true, "arg": true, "recv": true, "localBool": true,
+	"freshSlice": true, "sameBase": true, "sameArray": true, "suffixOf": true, "viewOf": true, "offsetIn": true, "disjointFromTail": true, "bytesEq": true, "strBytesEq": true, "allocated": true, "sameOrDisjoint": true, "unchangedElems": true, "identical": true, "arg": true, "recv": true, "localBool": true, "called": true,
 	"covers": true,
 }
 
 type modSpec struct {
 	kind  string // tail, elems, ptr, all
 	v     *Term
-	elemS *Sort // slice element sort / pointee sort / map key sort
-	valS  *Sort // map value sort
+	elemS *Sort      // slice element sort / pointee sort / map key sort
+	valS  *Sort      // map value sort
 	typ   types.Type // pointee type (ptr) / slice element type (tail, elems)
 }
 
@@ -141,6 +142,14 @@ func (c *VC) shouldInline(fi *FuncInfo) bool {
 func (c *VC) evalCall(st *State, call *ast.CallExpr) []*Term {
 	c.callSiteAsserts(st, call)
 	rs := c.evalCall1(st, call)
+	if c.ghost == 0 && len(c.frames) == 1 && !st.dead() {
+		if text := exprText(c.prog.fset, call.Fun); c.calledTexts()[text] {
+			if st.flags == nil {
+				st.flags = map[string]*Term{}
+			}
+			st.flags[text] = tTrue
+		}
+	}
 	c.callbackEffects(st, call)
 	if c.pendErr != nil && c.ghost == 0 && len(c.frames) == 1 {
 		if pend, ok := st.env[c.pendErr]; ok {
@@ -885,7 +894,9 @@ func (c *VC) intrinsic(st *State, fn *types.Func, call *ast.CallExpr) ([]*Term, 
 						ch := c.strByte(sv, k)
 						lit := func(x byte) *Term { return c.numLit(bigInt(int64(x)), types.Typ[types.Uint8]) }
 						u8 := types.Typ[types.Uint8]
-						rng := func(lo, hi byte) *Term { return mkAnd(c.cmp(token.LEQ, lit(lo), ch, u8), c.cmp(token.LEQ, ch, lit(hi), u8)) }
+						rng := func(lo, hi byte) *Term {
+							return mkAnd(c.cmp(token.LEQ, lit(lo), ch, u8), c.cmp(token.LEQ, ch, lit(hi), u8))
+						}
 						hex := mkOr(rng('0', '9'), rng('a', 'f'), rng('A', 'F'))
 						if bv.Val.Int64() == 8 {
 							hex = rng('0', '7')
@@ -896,7 +907,9 @@ func (c *VC) intrinsic(st *State, fn *types.Func, call *ast.CallExpr) ([]*Term, 
 						// caller's slices rarely match the quantifier's trigger syntactically
 						for g := 0; g < 16; g++ {
 							gch := c.strByte(sv, c.idxLit(int64(g)))
-							grng := func(lo, hi byte) *Term { return mkAnd(c.cmp(token.LEQ, lit(lo), gch, u8), c.cmp(token.LEQ, gch, lit(hi), u8)) }
+							grng := func(lo, hi byte) *Term {
+								return mkAnd(c.cmp(token.LEQ, lit(lo), gch, u8), c.cmp(token.LEQ, gch, lit(hi), u8))
+							}
 							ghex := mkOr(grng('0', '9'), grng('a', 'f'), grng('A', 'F'))
 							if bv.Val.Int64() == 8 {
 								ghex = grng('0', '7')
@@ -2328,4 +2341,42 @@ func promotedViaPointer(t types.Type, path []int) bool {
 		}
 	}
 	return false
+}
+
+var calledRe = regexp.MustCompile(`called\("([^"]+)"\)`)
+
+// calledTexts: the callee texts named by called("...") anywhere in the directives of the function
+// under verification (only those are tracked).
+func (c *VC) calledTexts() map[string]bool {
+	if c.calledSet != nil {
+		return c.calledSet
+	}
+	c.calledSet = map[string]bool{}
+	d := c.fn.Dir
+	if c.fn.Contract != nil {
+		d = c.fn.Contract.Dir
+	}
+	if d == nil {
+		return c.calledSet
+	}
+	add := func(s string) {
+		for _, m := range calledRe.FindAllStringSubmatch(s, -1) {
+			c.calledSet[m[1]] = true
+		}
+	}
+	for _, cs := range d.CallSites {
+		add(cs.Expr)
+	}
+	for _, cs := range d.Sites {
+		add(cs.Expr)
+	}
+	for _, ld := range d.Loops {
+		for _, s := range ld.Invariants {
+			add(s)
+		}
+		for _, s := range ld.Fallthrough {
+			add(s)
+		}
+	}
+	return c.calledSet
 }
